@@ -38,7 +38,7 @@ def case_strategy(tier):
     @st.composite
     def build(draw):
         w = draw(st.sampled_from(sorted(WRITERS)))
-        ln = gen.lines(meta=True, pipe=(w != "microdvd"), markers=True)
+        ln = gen.lines(meta=True, pipe=(w != "microdvd"), markers=True, extra=gen.LONG)
         s = draw(gen.simple_set(ln, 1, 4, gen.HOUR, min_dur=gen.SEC, empty_lines=True,
                                 split_nodes=True, min_gap=40 * gen.MS, empty_kinds=("br", "br", "style"),
                                 split_anywhere=True, edge_breaks=True))
